@@ -8,7 +8,7 @@ BASE=$(python3 -c "import json;print(json.load(open('$V/seeded/$NAME/meta.json')
 git -C /repo worktree add -q --detach $WT $BASE || exit 2
 if ! git -C $WT apply $V/seeded/$NAME/patch.diff; then echo "$NAME: patch does not apply to /repo HEAD"; git -C /repo worktree remove --force $WT; exit 2; fi
 IDS="$@"
-[ -z "$IDS" ] && IDS=$(python3 -c "import json;print(json.load(open('$V/seeded/$NAME/meta.json'))['property'])")
+[ -z "$IDS" ] && IDS=$(python3 -c "import json;m=json.load(open('$V/seeded/$NAME/meta.json'));print(' '.join(m.get('checks',[m['property']])))")
 for id in $IDS; do
   out=$(cd $V && VERIF_REPO=$WT python3 checks/run $id --tier quick 2>&1); rc=$?
   echo "$NAME $id rc=$rc keys: $(echo "$out" | grep '  key:' | sed 's/  key: //' | cut -c1-70 | head -4 | tr '\n' ' ')"
